@@ -240,6 +240,11 @@ class Parser:
             saved = self.nostruct; self.nostruct = 0
             try:
                 e = self.expr()
+                if self.peek()[1] in ("..", "..="):
+                    incl = self.next()[1] == "..="
+                    hi = self.expr()
+                    self.expect(")")
+                    return ("range", e, hi, incl)
                 if self.accept(","):
                     items = [e]
                     while not self.accept(")"):
@@ -648,19 +653,31 @@ class Gen:
                 early = ("Some (inl r_early)" if self.loop_depth > 0 else "Some r_early")
                 return ("match for_loop (%s %s =>\n  %s) %s %s with\n  | None => None\n  | Some (inl r_early) => %s\n  | Some (inr %s) =>\n  %s end"
                         % (sb, eb, b, spat, lst, early, spat, after))
-            if it[0] == "range":
-                def klo(lo, tl):
-                    def khi(hi, th):
-                        t_ = self.unify(tl, th, "range") or "usize"
-                        return with_list("(range_list %s %s)" % (lo, ("(%s + 1)" % hi) if it[3] else hi), [t_])
-                    return self.expr(it[2], khi, tl)
-                return self.expr(it[1], klo)
-            if it[0] == "call" and it[2] == "enumerate" and it[1][0] == "call" and it[1][2] == "chars":
-                def ks(sv, ts):
-                    if ts != "str": raise Untranslatable(".chars() of a non-str")
-                    return with_list("(enumerate_list %s)" % sv, ["usize", "char"])
-                return self.expr(it[1][1], ks)
-            raise Untranslatable("for over %r" % (it[0],))
+            def iter_list(x, kk):
+                """kk(list term, [element types]) for an iterator expression"""
+                while x[0] == "paren": x = x[1]
+                if x[0] == "range":
+                    def klo(lo, tl):
+                        def khi(hi, th):
+                            t_ = self.unify(tl, th, "range") or "usize"
+                            return kk("(range_list %s %s)" % (lo, ("(%s + 1)" % hi) if x[3] else hi), [t_])
+                        return self.expr(x[2], khi, tl)
+                    return self.expr(x[1], klo)
+                if x[0] == "call" and not x[3]:
+                    if x[2] == "enumerate": return iter_list(x[1], lambda l, ts: kk("(enumerate_list %s)" % l, ["usize"] + ts) if len(ts) == 1 else (_ for _ in ()).throw(Untranslatable("enumerate of pairs")))
+                    if x[2] == "rev": return iter_list(x[1], lambda l, ts: kk("(rev %s)" % l, ts))
+                    if x[2] == "chars":
+                        def ks(sv, ts):
+                            if ts != "str": raise Untranslatable(".chars() of a non-str")
+                            return kk(sv, ["char"])
+                        return self.expr(x[1], ks)
+                    if x[2] == "iter":
+                        def ka_(av, ta):
+                            if not (isinstance(ta, tuple) and ta[0] == "arr"): raise Untranslatable(".iter() of a non-array")
+                            return kk(av, [ta[1]])
+                        return self.expr(x[1], ka_)
+                raise Untranslatable("for over %r" % (x[0],))
+            return iter_list(it, with_list)
         if s[0] == "while":
             cond, body = s[1], s[2]
             assigned = []
